@@ -110,6 +110,8 @@ impl StateEntry {
             .duration_since(UNIX_EPOCH)
             .unwrap()
             .as_millis() as u64;
+        #[cfg(feature = "verif-hooks")]
+        let now = crate::verif_hooks::clock_override_ms().unwrap_or(now);
 
         Self {
             value,
@@ -125,6 +127,8 @@ impl StateEntry {
                 .duration_since(UNIX_EPOCH)
                 .unwrap()
                 .as_millis() as u64;
+            #[cfg(feature = "verif-hooks")]
+            let now = crate::verif_hooks::clock_override_ms().unwrap_or(now);
 
             let ttl_ms = ttl.as_millis() as u64;
             now > self.created_at + ttl_ms
@@ -502,6 +506,8 @@ impl StateStore {
             .duration_since(UNIX_EPOCH)
             .unwrap()
             .as_millis() as u64;
+        #[cfg(feature = "verif-hooks")]
+        let now_ms = crate::verif_hooks::clock_override_ms().unwrap_or(now_ms);
 
         // The id is derived from the clock; two checkpoints taken within the same
         // millisecond (or one taken after a restart that finds an older directory of
